@@ -73,8 +73,10 @@ def gen_case(rng, i, su, npk, modes=None, jfix=None):
             j = min(jfix, len(ub))
         z = sum(x or 0 for x in ub[:j])
         one = 1 if (j < len(ub) and rng.random() < 0.7) else rng.getrandbits(1)   # ... and the next one with (floor 1: flag set; floor 0: low amplitude bit)
-        head = (bits | (one << (nb + z)) | (rng.getrandbits(128) << (nb + z + 1))).to_bytes(32, "little")
-        body[:16] = head[:16]
+        hv = bits | (one << (nb + z)) | (rng.getrandbits(128) << (nb + z + 1))
+        head = hv.to_bytes((hv.bit_length() + 7) // 8 + 16, "little")        # (many channels: the run of floor bits alone can exceed 16 bytes)
+        keep = max(16, (nb + z + 1 + 7) // 8)
+        body[:keep] = head[:keep]
         body[0] &= 0xfe
         ops.append("pkt %s" % vlib.hexs(bytes(body)))
     return ops
